@@ -352,6 +352,10 @@ pub fn plan_runs(prop: &str, sc: &Scenario, infos: &[SysInfo], layout: &crate::b
                             s.faults.push(Fault { sid: j, call: 0, kind: FaultKind::PanicMid, arg: 0 });
                         }
                     }
+                    if s.pool.supplied.is_some() && rng.chance(1, 6) {
+                        // dispatch is called by a worker of the dispatcher's own pool
+                        s.from_pool = Some(0);
+                    }
                     // sibling phase at the instant of the panic is the scheduler's doing
                     let sibs: Vec<usize> = infos.iter().filter(|x| x.parent == i.parent && x.sid != i.sid && x.kind != Kind::Tl).map(|x| x.sid).collect();
                     let strat = match rng.below(5) {
@@ -926,7 +930,7 @@ pub fn explore(prop: &str, seed: u64, thorough: bool, st: &mut Stats) -> Vec<Rep
         // and a run with an injected panic starts from a fresh dispatcher, so that every record
         // is reproducible on its own (what a panic leaves behind is checked inside that run,
         // by the recovery dispatch)
-        let bref = if p.sc.pool != sc.pool || !p.sc.faults.is_empty() && p.sc.faults.iter().any(|f| f.kind != FaultKind::Rendezvous) {
+        let bref = if p.sc.pool != sc.pool || p.sc.from_pool != sc.from_pool || !p.sc.faults.is_empty() && p.sc.faults.iter().any(|f| f.kind != FaultKind::Rendezvous) {
             own = build(&p.sc, &BuildOpts::default());
             &mut own
         } else {
